@@ -251,9 +251,23 @@ impl Global {
         // overwrite the global epoch with the same value. This is true because `try_advance` was
         // called from a thread that was pinned in `global_epoch`, and the global epoch cannot be
         // advanced two steps ahead of it.
+        //
+        // In this version that reasoning does not always hold: while it runs a collection, the
+        // calling thread can be re-pinned in the middle of the scan above (unlinking the entry of
+        // an exited participant defers its destruction, which can fill up the bag and trigger
+        // `schedule_collection`). From then on the epoch may move two steps ahead of the value
+        // read at the beginning, and a plain store would set it back. Only ever move it forward
+        // from the value the scan was made for.
         let new_epoch = global_epoch.successor();
-        self.epoch.store(new_epoch, Ordering::Release);
-        new_epoch
+        match self.epoch.compare_exchange(
+            global_epoch,
+            new_epoch,
+            Ordering::Release,
+            Ordering::Relaxed,
+        ) {
+            Ok(_) => new_epoch,
+            Err(current) => current,
+        }
     }
 }
 
